@@ -12,7 +12,8 @@ from sa.props._lib_j import (flag_search, flags_at, flag_value, asserted_eq, cat
 PROPERTY = "C50"
 LF = "python/lockfile.py"
 QL = "twisted.python.lockfile.FilesystemLock"
-TECHNIQUE = "CFG reachability through atomic create, guard dominance, flag typestate, TOCTOU lint"
+TECHNIQUE = ("CFG reachability through atomic create (flag-consistent: an outcome local None/True/False is tracked along the path; a private method object is "
+             "read as locals), guard dominance, flag typestate, TOCTOU lint")
 EXPLANATION = (
     "Decides on the CFG of FilesystemLock.lock: (a) `self.locked = True` / `return True` are reachable only through the normal "
     "(non-raising) out-edge of symlink(str(os.getpid()), self.name), the atomic create, and locked is written True nowhere else; "
